@@ -189,10 +189,10 @@ Definition rs_ordinal_to_ymd (year ordinal : Z) (allow_oob : bool) : option (Z *
     end
   end.
 
-(* Parser::iso_to_ymd *)
+(* Parser::iso_to_ymd (iso_week, iso_day are u32: `== 0` is the lower-bound check, added by the repair of finding week-zero-accepted) *)
 Definition rs_iso_to_ymd (iso_year iso_week iso_day : Z) : option (Z * Z * Z) :=
-  if (iso_week >? 53) || ((iso_week >? 52) && negb (rs_is_long_year iso_year)) then None
-  else if iso_day >? 7 then None
+  if (iso_week =? 0) || (iso_week >? 53) || ((iso_week >? 52) && negb (rs_is_long_year iso_year)) then None
+  else if (iso_day =? 0) || (iso_day >? 7) then None
   else rs_ordinal_to_ymd iso_year (iso_week * 7 + iso_day - (rs_week_day iso_year 1 4 + 3)) true.
 
 Definition date_end (s : list Z) : bool := isend s || (cur s =? ch_sp) || (cur s =? ch_T).
@@ -333,8 +333,8 @@ Fixpoint digits_aux (fuel : nat) (n : Z) (acc : list Z) : list Z :=
   | S f => let acc' := (48 + n mod 10) :: acc in if n <? 10 then acc' else digits_aux f (n / 10) acc'
   end.
 Definition digits (n : Z) : list Z := digits_aux 20 n [].
-(* f"{x!s:0>2}" *)
-Definition pad2 (l : list Z) : list Z := match l with [a] => [48; a] | _ => l end.
+(* f"{x:02d}" / f"{x:04d}" for x >= 0: the decimal digits, zero-padded on the left to the width *)
+Definition padl (w : nat) (l : list Z) : list Z := repeat 48 (w - length l) ++ l.
 (* f"{subsecond:0<6}" after [:6] *)
 Definition pad6r (l : list Z) : list Z := l ++ repeat 48 (6 - length l).
 Definition slice (l : list Z) (a b : nat) : list Z := firstn (b - a) (skipn a l).
@@ -435,7 +435,9 @@ Definition py_parse_iso (s : list Z) : result pval :=
     | Ok (year, month, day, ambiguous) =>
       if negb (has c G_ISO_time) then
         if ambiguous then
-          let hhmmss := digits year ++ pad2 (digits month) in
+          (* hhmmss = f"{year:04d}{month:02d}" (finding py-hhmmss-leading-zero repaired: it was f"{year!s}{month!s:0>2}",
+             which dropped the leading zeros of the first four digits) *)
+          let hhmmss := padl 4 (digits year) ++ padl 2 (digits month) in
           match int_of_str (slice hhmmss 0 2), int_of_str (slice hhmmss 2 4), int_of_str (skipn 4 hhmmss) with
           | Ok hh, Ok mm, Ok ss => mk_time hh mm ss 0 None
           | _, _, _ => Raise E_ValueError
